@@ -159,3 +159,6 @@ pub fn vx_extend_opt<T>(v: &mut Vec<T>, o: Option<T>)
 {
     match o { Some(x) => { v.push(x); } None => {} }
 }
+
+/// R43 target for `drop(x)`: takes its argument by value and lets it go
+pub fn vx_drop<T>(t: T) { }
